@@ -378,7 +378,8 @@ fn main() {
     ctx.set_hang_limit(if ctx.thorough() { 900 } else { 300 });
     let small = ctx.small;
     let thorough = ctx.thorough();
-    let big = thorough && !small && ctx.build == "UBC";
+    // multi-GB vectors: release build only; quick runs a third of the thorough cases
+    let big = !small && ctx.build == "UBC";
     let mut run = Runner::new(ctx);
     let variants = all_variants();
     let nbare = 6;
@@ -469,6 +470,10 @@ fn main() {
                     continue;
                 }
                 let stratum = if dirty { "stale/tail=dirtyones+2w/len2^32+2^20/big-dense" } else { "len2^32+2^20/big-dense/tail=fresh" };
+                if !thorough && k % 3 != 0 {
+                    k += 1;
+                    continue;
+                }
                 run.big_case(k, &v.name, stratum, "rank", |c| {
                     let len = (1usize << 32) + (1 << 20) + if dirty { 21 } else { [0usize, 64 * 5, 37][c.rng().random_range(0..3)] };
                     let (bv, m) = big_dense(c.rng(), len, dirty);
